@@ -305,11 +305,12 @@ RecvReset(s) ==
                ELSE Commit(G)
           ELSE LET r == G.rec[k0]
                    \* (since fix "count a remote reset of a not yet accepted stream only when it takes effect")
-                   becomes == ~IsRemoteResetSt(r.state) /\ ~(IsClosedSt(r.state) /\ ~r.isPendingSend)
+                   queued == r.isPendingSend \/ r.pendingSend # <<>>    \* (since fix 52952f2; in this model frames queued => scheduled, flow control is abstracted)
+                   becomes == ~IsRemoteResetSt(r.state) /\ ~(IsClosedSt(r.state) /\ ~queued)
                    over == r.isPendingAccept /\ becomes /\ ~CanIncRemoteReset(G)
                    G1 == IF r.isPendingAccept /\ becomes /\ ~over THEN [G EXCEPT !.cn.numRemoteReset = @ + 1] ELSE G
                    \* State::recv_reset(frame, queued = stream.is_pending_send)
-                   st2 == IF IsClosedSt(r.state) /\ ~r.isPendingSend THEN r.state
+                   st2 == IF IsClosedSt(r.state) /\ ~queued THEN r.state
                           ELSE StClosedReset(IsRecvEndStreamSt(r.state), CANCEL, "Remote")
                    body == IF over THEN [G EXCEPT !.err = ENHANCE_YOUR_CALM]                  \* "too_many_resets"
                            ELSE ClearQueue([G1 EXCEPT !.rec[k0].state = st2], k0)             \* + send.handle_error
